@@ -9,6 +9,8 @@ pub enum Tok {
     Str(Seq<char>),
     In(int),
     G(Delim, Seq<Tok>),
+    // only in PATTERNS (never generated): stands for any one word (a generated binder name)
+    Any,
 }
 
 pub struct TokenStream { pub toks: Ghost<Seq<Tok>> }
